@@ -38,7 +38,8 @@ def machinery_error(prop, tier, msg, out=""):
     """A build/instrumentation failure: evidence says so, exit 2, no VIOLATION line."""
     sys.stdout.write(out)
     print("MACHINERY-ERROR:", msg)
-    os.makedirs(os.path.join(VERIF, "evidence"), exist_ok=True)
+    outdir = os.environ.get("VERIF_OUT", VERIF)  # evaluation runs against patched trees keep their evidence apart
+    os.makedirs(os.path.join(outdir, "evidence"), exist_ok=True)
     ev = {
         "property_id": prop, "tier": tier, "seed": int(os.environ.get("VERIF_SEED", "0") or 0),
         "level": "other",
@@ -46,7 +47,7 @@ def machinery_error(prop, tier, msg, out=""):
                      "exhaustive": False},
         "assumptions": [], "wall_s": 0.0, "violations": 0,
     }
-    with open(os.path.join(VERIF, "evidence", prop + ".json"), "w") as f:
+    with open(os.path.join(outdir, "evidence", prop + ".json"), "w") as f:
         json.dump(ev, f, indent=1)
     sys.exit(2)
 
